@@ -72,6 +72,11 @@ PyObject* py_center_of_mass(PyObject* self, PyObject* args) {
             }
             if (labels[i] > max_label) max_label = labels[i];
         }
+        if (max_label == std::numeric_limits<int>::max()) {
+            // max_label + 1 (the number of regions) does not fit in an int
+            PyErr_SetString(PyExc_ValueError, "mahotas.center_of_mass: label value is too large");
+            return NULL;
+        }
         totals = new(std::nothrow) double[max_label+1];
         if (!totals) {
             PyErr_NoMemory();
